@@ -4,7 +4,6 @@ package zzverif
 // Check is called for every target / header map; the verdict vectors are logged for DispatchTrace.tla.
 
 import (
-	"sync"
 	"bufio"
 	"context"
 	"encoding/json"
@@ -13,6 +12,7 @@ import (
 	"os"
 	"path/filepath"
 	"strings"
+	"sync"
 	"sync/atomic"
 
 	envoy "github.com/envoyproxy/go-control-plane/envoy/service/auth/v3"
@@ -488,7 +488,6 @@ func runDispatchFile(in, out, targetsFile, tmp string) (int, error) {
 }
 
 var _ = rand.Int
-
 
 func hasInvalidRegex(rules []dRule) bool {
 	for _, r := range rules {
